@@ -13,11 +13,14 @@ let item () =
   | "T" -> IText (nn ())
   | "B" -> IBlock (nn ())
   | "C" -> let w = (match next () with "s" -> WSelf | "n" -> WNext | "p" -> WParent | "l" -> WLocal | t -> failwith ("which " ^ t)) in ICall (w, nn ())
+  | "A" -> let w = (match next () with "s" -> WSelf | "n" -> WNext | "p" -> WParent | "l" -> WLocal | t -> failwith ("which " ^ t)) in IAttr (w, nn ())
   | t -> failwith ("item " ^ t)
 let tmpl () =
   match next () with
   | "M" -> let k = num () in
-    times k (fun () -> let name = nn () in let ni = num () in (name, times ni item))   (* a one-field record is extracted as its field *)
+    let ms = times k (fun () -> let name = nn () in let ni = num () in (name, times ni item)) in
+    let na = num () in
+    { members = ms; attrs = times na nn }
   | t -> failwith ("tmpl " ^ t)
 
 let handle line =
@@ -30,6 +33,7 @@ let handle line =
     (if ok then "ok" else "err") ^ "|" ^ String.concat " " (List.map (function
         | EText m -> "t" ^ string_of_int (int_of_n m)
         | EEnter (j, x) -> "e" ^ string_of_int (int_of_nat j) ^ ":" ^ string_of_int (int_of_n x)
+        | EAttr (j, x) -> "a" ^ string_of_int (int_of_nat j) ^ ":" ^ string_of_int (int_of_n x)
         | EError -> "x") ev)
   | _ -> "!badrequest"
 
